@@ -100,11 +100,19 @@ def c_cleveref(rng, W):
     sed = ('s/\\\\cref\\*{lab}/Abschnitt eins/g\n'
            's/\\\\cref{lab}/Abschnitt eins/g\n'
            's/\\\\Cref{lab}/Abschnitt eins/g\n')
+    f2 = _name(rng, 'cr') + '.sed'
+    sed2 = 's/\\\\cref{other}/Kapitel zwei/g\n'
+    probe = rng.choice([
+        # the later document never loads a sed file ...
+        '\\usepackage[poorman]{cleveref}\n%s \\cref{lab}.\n' % a,
+        # ... or loads its own one, which does not know the label
+        '\\usepackage[poorman]{cleveref}\n\\YYCleverefInput{%s}\n'
+        '%s \\cref{lab} and \\cref{other}.\n' % (f2, a)])
     return {'name': 'cleveref_table',
             'pol': '\\usepackage[poorman]{cleveref}\n\\YYCleverefInput{%s}\n'
                    'See \\cref{lab}.\n' % f,
-            'probe': '\\usepackage[poorman]{cleveref}\n%s \\cref{lab}.\n' % a,
-            'files': {f: {'text': sed}}}
+            'probe': probe,
+            'files': {f: {'text': sed}, f2: {'text': sed2}}}
 
 
 def c_docclass(rng, W):
@@ -167,6 +175,28 @@ def c_ienc(rng, W):
             'files': {f1: {'text': '\\newcommand{\\encmac}{Grüße}\n',
                            'enc': 'latin-1'},
                       f2: {'text': '\\newcommand{\\encmac}{Grüße ж}\n'}}}
+
+
+def c_file_rewritten(rng, W):
+    # "... a function of the document, the options and the files it reads":
+    # the same file name, other content when the later operation reads it
+    a = W.word()
+    f = _name(rng, 'chg') + rng.choice(['.tex', '.glsdefs'])
+    g1, g2 = W.word(True), W.word(True)
+    if f.endswith('.tex'):
+        v1 = '\\newcommand{\\chgmac}{%s}\n' % g1
+        v2 = '\\newcommand{\\chgmac}{%s}\n' % g2
+        use = '\\chgmac{}'
+    else:
+        tmpl = ('\\gls@defglossaryentry{lab}%%\n{%%\nname={%s},%%\ntext={%s},%%\n'
+                'plural={%ss},%%\ndescription={d}%%\n}%%\n')
+        v1, v2 = tmpl % (g1, g1, g1), tmpl % (g2, g2, g2)
+        use = '\\gls{lab}'
+    return {'name': 'file_rewritten',
+            'pol': '\\LTinput{%s}\nText %s.\n' % (f, use),
+            'probe': '\\LTinput{%s}\n%s %s.\n' % (f, a, use),
+            'files': {f: {'text': v1}},
+            'probe_files': {f: {'text': v2}}}
 
 
 def c_lang_option(rng, W):
@@ -296,7 +326,7 @@ def c_recovery(rng, W):
 
 CARRIERS = [c_newcommand, c_newcommand, c_renewcommand, c_newtheorem, c_package,
             c_package, c_cleveref, c_docclass, c_language, c_language,
-            c_lang_option, c_ienc, c_babel_table, c_babel_table, c_rotation, c_rotation, c_items, c_glossary,
+            c_lang_option, c_ienc, c_file_rewritten, c_file_rewritten, c_babel_table, c_babel_table, c_rotation, c_rotation, c_items, c_glossary,
             c_glossary, c_flows, c_unknowns, c_option_flag, c_option_flag,
             c_modparms, c_recovery]
 
@@ -360,6 +390,11 @@ def gen_lib_plan(rng, idx):
         probe = mk_op(car['probe'] + (pad if rng.random() < 0.3 else ''), qo,
                       ml=car.get('probe_ml'), role='probe',
                       carrier=car['name'])
+        if car.get('probe_files'):
+            probe['files'] = car['probe_files']
+            # a repeated polluter finds the first version again
+            pol['files'] = {k: v for k, v in car['files'].items()
+                            if k in car['probe_files']}
         pairs.append((pol, probe, rng.choice([0, 0, 0, 1, 1, 2])))
     pre = [filler_op(rng, W) for _ in range(rng.choice([0, 0, 1, 2]))]
     if any(p_[0]['carrier'].startswith('option_flag') for p_ in pairs) \
@@ -407,11 +442,19 @@ def evaluate_lib(plan):
     probes = {}
     cache = {}
     digest = hist['digest']
+    fstate = dict(plan['files'])
     for i, rec in enumerate(recs):
-        key = json.dumps(ops[i], sort_keys=True)
+        if ops[i].get('files'):
+            fstate = dict(fstate)
+            fstate.update(ops[i]['files'])
+        key = json.dumps([ops[i], sorted(fstate.items(), key=lambda kv: kv[0])
+                          if ops[i].get('files') or any(
+                              o.get('files') for o in ops) else None],
+                         sort_keys=True)
         if key not in cache:
-            ref = runner.execute({'kind': 'lib', 'ops': [ops[i]],
-                                  'files': plan['files']})
+            ref = runner.execute({'kind': 'lib', 'ops': [
+                {k: v for k, v in ops[i].items() if k != 'files'}],
+                'files': fstate})
             runs += 1
             if runner.is_harness_error(ref):
                 return core.harness(ref['status'], runs=runs)
@@ -526,10 +569,13 @@ def gen_server_plan(rng, idx):
         if rng.random() < 0.7:
             car = rng.choice(CARRIERS)(rng, W)
             files.update(car.get('files', {}))
-            st.append(('polluter', car['name'], car['pol'], fields))
+            st.append(('polluter', car['name'], car['pol'], fields,
+                       {k: v for k, v in car.get('files', {}).items()
+                        if k in car.get('probe_files', {})}))
             # the probe comes from the same or from another client's fields
             pf = fields if rng.random() < 0.6 else [['language', lang]]
-            st.append(('probe', car['name'], car['probe'], pf))
+            st.append(('probe', car['name'], car['probe'], pf,
+                       car.get('probe_files')))
         else:
             text = docgen.doc_text(docgen.gen_document(
                 rng, n_frags=rng.randrange(2, 8), W=W,
@@ -537,14 +583,14 @@ def gen_server_plan(rng, idx):
             cuts = sorted(rng.sample(range(1, len(text) + 1),
                                      min(len(text), rng.randrange(1, 4))))
             for cut in cuts + [len(text)]:
-                st.append((None, None, text[:cut], fields))
+                st.append((None, None, text[:cut], fields, None))
         streams.append(st)
     # the scheduler merges the client streams into one arrival order
     reqs = []
     heads = [0] * len(streams)
     while any(h < len(s) for h, s in zip(heads, streams)):
         c = rng.choice([i for i, s in enumerate(streams) if heads[i] < len(s)])
-        role, carrier, text, fields = streams[c][heads[c]]
+        role, carrier, text, fields, rfiles = streams[c][heads[c]]
         heads[c] += 1
         tp = rng.randrange(len(fields) + 1)
         req = {'client': c, 'fields': [list(f) for f in fields[:tp]]
@@ -552,6 +598,8 @@ def gen_server_plan(rng, idx):
         if role:
             req['role'] = role
             req['carrier'] = carrier
+        if rfiles:
+            req['files'] = rfiles
         reqs.append(req)
     # request-level network faults
     out = []
@@ -627,12 +675,18 @@ def evaluate_server(plan):
     probes = {}
     digest = hist['digest']
     cache = {}
+    fstate = dict(plan['files'])
+    any_files = any(q.get('files') for q in reqs)
     for i, got in enumerate(per):
+        if reqs[i].get('files'):
+            fstate = dict(fstate)
+            fstate.update(reqs[i]['files'])
         r = {k: v for k, v in reqs[i].items()
-             if k not in ('role', 'carrier', 'dup_of')}
-        key = json.dumps(r, sort_keys=True)
+             if k not in ('role', 'carrier', 'dup_of', 'files')}
+        key = json.dumps([r, sorted(fstate.items(), key=lambda kv: kv[0])
+                          if any_files else None], sort_keys=True)
         if key not in cache:
-            ref, rper = server_observe(plan, [r])
+            ref, rper = server_observe(dict(plan, files=fstate), [r])
             runs += 1
             if rper is None:
                 return core.harness(ref['status'], runs=runs)
